@@ -94,6 +94,9 @@ def execute(cfg, prefix, on_point=None, line=False, seam='fork'):
                 out = res[0][0] if res[0] else []
             return out
         result, exc, deadlock = s.run(body)
+        if isinstance(exc, core.CaseTimeout):
+            # the task's time limit expired while the code under test was running: a budget event, not an observation
+            raise exc
     finally:
         for name, val in saved.items():
             setattr(m, name, val)
